@@ -16,7 +16,7 @@ JOBS = [
 # NDSize: every size_t index, every rank the type invariant allows, aliasing operands
 JOBS += [j for j in ND_JOBS if 'rank=' not in j['name']]
 JOBS += [j for j in c10.JOBS if j['name'] in ('FormatVersion_index', 'FormatVersion_lt')]
-SPEC = dict(contracts=['c07_leaf.h', 'nd.h', 'c10_version.h'], stubs=['std_algo.h'], units=UNITS, jobs=JOBS,
+SPEC = dict(new_safety_failures_are_violations=True, contracts=['c07_leaf.h', 'nd.h', 'c10_version.h'], stubs=['std_algo.h'], units=UNITS, jobs=JOBS,
             trusted_base=c07.SPEC['trusted_base'] + ND_TRUST,
             assumptions=['type invariants only: enum parameters hold an enumerator, vectors have at most 2^20 elements, NDSize rank <= 32 with dims of exactly rank elements',
                          'sampled axis: interval and offset are grid constants (symbolic division does not terminate); the position is any double',
